@@ -120,6 +120,27 @@ def translate(repo: Path) -> dict:
     max_extra = T.const_value(wtree, "_MAX_EXTRA_COMMITS")
     if not isinstance(max_extra, int) or max_extra < 0:
         raise T.TranslateError(f"_MAX_EXTRA_COMMITS = {max_extra!r}")
+    # _CommitTimeQueue._step: the comparison that decides whether to keep walking so the exclusion can catch up
+    stepf = T.find_def(wtree, "_CommitTimeQueue._step")
+    ops = []
+    for n in ast.walk(stepf):
+        if isinstance(n, ast.Compare) and len(n.ops) == 1 and ast.unparse(n.left) == "n.commit_time" \
+                and ast.unparse(n.comparators[0]) == "self._last.commit_time":
+            ops.append(type(n.ops[0]))
+    if len(ops) != 1 or ops[0] not in (ast.GtE, ast.Gt):
+        raise T.TranslateError(f"_step: expected one test `n.commit_time >= self._last.commit_time`, found {ops}")
+    catch_ge = ops[0] is ast.GtE
+    # _exclude_parents marks every parent, and looks one level further through parents that were already seen
+    exf = T.find_def(wtree, "_CommitTimeQueue._exclude_parents")
+    src_ex = ast.unparse(exf)
+    for needle in ("excluded.add(parent)", "todo.append(", "parent not in excluded and parent in seen", "todo.pop()"):
+        if needle not in src_ex:
+            raise T.TranslateError(f"_exclude_parents: `{needle}` not found (model was written for this shape)")
+    # the countdown: `self._extra_commits_left -= 1` and `if not self._extra_commits_left: break`
+    src_step = ast.unparse(stepf)
+    for needle in ("self._extra_commits_left -= 1", "if not self._extra_commits_left:", "self._extra_commits_left = _MAX_EXTRA_COMMITS"):
+        if needle not in src_step:
+            raise T.TranslateError(f"_step: `{needle}` not found (model was written for this shape)")
     lean_min = "none" if min_default is None else f"some ({min_default})"
     src = T.lean_header("dulwich/graph.py: _find_lcas flag constants, min_stamp default, call shapes; "
                         "dulwich/walk.py: _MAX_EXTRA_COMMITS") + f"""
@@ -136,6 +157,8 @@ def lcaLca : Nat := {consts['_LCA']}
 def lcaDefaultMinStamp : Option Int := {lean_min}
 /-- `_MAX_EXTRA_COMMITS` in walk.py -/
 def walkMaxExtraCommits : Nat := {max_extra}
+/-- `_CommitTimeQueue._step`: the catch-up test is `n.commit_time >= self._last.commit_time` (`false`: `>`) -/
+def walkCatchUpGe : Bool := {"true" if catch_ge else "false"}
 end Dulwich.Gen
 """
     return {"Graph": src}
@@ -1114,6 +1137,125 @@ def _stream_topo(ctx):
 
 
 # ------------------------------------------------------------------------------------------------
+# walks with excludes on tied commit times (histories longer than the exhaustive bound)
+
+def gen_tie_history(rng, k=None, a=None, t=None, shape=None, stamps=None):
+    """A history in which an excluded tip X sits `k` commits above a commit B that the included tip Y also
+    reaches (over `a` commits), with `t` commits below B; weakly monotone stamps with long runs of equal ones.
+    Returns (Hist, Y, X, B, tag)."""
+    k = rng.randint(5, 12) if k is None else k
+    a = rng.choice([0, 0, 1, 2, 3]) if a is None else a
+    t = rng.choice([0, 0, 1, 3, 6]) if t is None else t
+    shape = shape or rng.choice(["fork", "fork", "dag", "dag", "two-excl", "cross"])
+    stamps = stamps or rng.choice(["all-equal", "all-equal", "blocks", "excl-equal", "incl-newer"])
+    P = []
+
+    def new(parents):
+        P.append(list(parents))
+        return len(P) - 1
+    # below B
+    tail = []
+    prev = None
+    for _ in range(t):
+        prev = new([prev] if prev is not None else [])
+        tail.append(prev)
+    if shape == "dag" and len(tail) >= 3:
+        P[tail[-1]].append(tail[0])          # a merge below B
+    B = new([prev] if prev is not None else [])
+    # excluded side: X -> x1 -> ... -> xk -> B
+    cur = B
+    chain = []
+    for i in range(k):
+        cur = new([cur])
+        chain.append(cur)
+        if shape == "dag" and i >= 2 and rng.random() < 0.3:
+            side = new([chain[rng.randrange(0, i)]])      # a side branch merged back into the chain
+            P[cur].append(side)
+    X = new([cur])
+    # included side: Y -> y1 -> ... -> ya -> B
+    cur = B
+    inc = []
+    for _ in range(a):
+        cur = new([cur])
+        inc.append(cur)
+    ypar = [cur]
+    if shape == "cross" and chain:
+        ypar.append(chain[rng.randrange(len(chain))])     # Y also merges a commit of the excluded side
+    Y = new(ypar)
+    X2 = None
+    if shape == "two-excl" and chain:
+        X2 = new([chain[rng.randrange(len(chain))]])      # a second excluded tip lower on the same side
+    n = len(P)
+    ts = [0] * n
+    base = rng.choice([0, 7, 10 ** 9])
+    if stamps == "all-equal":
+        ts = [base] * n
+    elif stamps == "blocks":
+        for c in range(n):     # parents have smaller numbers
+            ts[c] = max((ts[p] for p in P[c]), default=base) + (1 if rng.random() < 0.15 else 0)
+    elif stamps == "excl-equal":   # everything at or below X equal; the included side strictly newer
+        ts = [base] * n
+        for i, c in enumerate(inc + [Y]):
+            ts[c] = base + 1 + i
+    else:                          # incl-newer: Y alone is newer, the rest equal
+        ts = [base] * n
+        ts[Y] = base + 5
+    h = Hist(P, ts)
+    return h, Y, X, B, X2, f"{shape}/{stamps}"
+
+
+def _tie_variants(h: Hist, Y, X, B, rng, want=4, tries=24):
+    """the same history as real commits under several nonces, so that the SHA order of the tied commits varies:
+    keep one per combination of (Y before X, B before X) in id order — both orders of the critical pairs"""
+    seen = {}
+    for _ in range(tries):
+        rh = RealHist(h, nonce=rng.randrange(10 ** 6))
+        key = (rh.rank[Y] < rh.rank[X], rh.rank[B] < rh.rank[X])
+        if key not in seen:
+            seen[key] = rh
+            if len(seen) >= want:
+                break
+    return list(seen.items())
+
+
+def _tie_queries(rng, rh: RealHist, Y, X, B, X2, full=False):
+    r = rh.rank
+    excl = [r[X]] + ([r[X2]] if X2 is not None else [])
+    base = {"incl": [r[Y]], "excl": excl, "topo": False, "rev": False, "max": None, "since": None, "until": None}
+    qs = [("W", dict(base)), ("W", dict(base, topo=True))]
+    extra = [dict(base, rev=True), dict(base, topo=True, rev=True), dict(base, max=rng.choice([1, 2, 3, 50])),
+             dict(base, incl=[r[Y], r[B]]), dict(base, excl=[r[X]]),
+             dict(base, incl=[r[X]], excl=[r[Y]]), dict(base, excl=excl + [r[B]])]
+    if full:
+        qs += [("W", e) for e in extra]
+    else:
+        qs += [("W", e) for e in rng.sample(extra, 2)]
+    return qs
+
+
+def _stream_walk_ties(ctx):
+    """`walk.ties`: excludes + tied stamps + long chains below the excluded tip + both id orders of the critical
+    commits: model vs real walker, and the real walker vs Reach(include) minus Reach(exclude) (stamps are weakly
+    monotone, so the property claims exactness)."""
+    rng = ctx.rng
+    items = []
+    # deterministic core: every distance 4..12 of the excluded tip above the shared commit, all stamps equal
+    for k in range(4, 13):
+        for a in (0, 2):
+            for t in (0, 2):
+                h, Y, X, B, X2, tag = gen_tie_history(rng, k=k, a=a, t=t, shape="fork", stamps="all-equal")
+                for key, rh in _tie_variants(h, Y, X, B, rng):
+                    items.append((f"walk.ties:{tag}:Y<X={int(key[0])}:B<X={int(key[1])}", rh,
+                                  _tie_queries(rng, rh, Y, X, B, X2, full=(a == 0 and t == 0))))
+    for _ in range(ctx.budget(120)):
+        h, Y, X, B, X2, tag = gen_tie_history(rng)
+        for key, rh in _tie_variants(h, Y, X, B, rng, want=rng.choice([2, 4])):
+            items.append((f"walk.ties:{tag}:Y<X={int(key[0])}:B<X={int(key[1])}", rh,
+                          _tie_queries(rng, rh, Y, X, B, X2)))
+    _run_repo_cases(ctx, "walk.ties", items)
+
+
+# ------------------------------------------------------------------------------------------------
 # C git as a third party
 
 class GitHist:
@@ -1149,6 +1291,10 @@ def _stream_git(ctx):
         shape, mode, h0 = gen_hist(rng, big=rng.random() < 0.25)
         while min(h0.ts) < 0:   # C git reads commit times as unsigned
             shape, mode, h0 = gen_hist(rng, big=rng.random() < 0.25)
+        tie = None
+        if idx >= 2 and idx % 2 == 0:   # every other history: excludes on tied stamps (walk.ties family)
+            h0, tY, tX, tB, tX2, mode = gen_tie_history(rng)
+            shape, tie = "ties", (tY, tX, tB, tX2)
         if idx == 0:   # the two F14 witnesses always go to git as well
             h0, shape, mode = Hist([[], [0], [1], [0, 2]], [5, 5, 5, 5]), "F14", "equal"
         if idx == 1:
@@ -1160,6 +1306,8 @@ def _stream_git(ctx):
             sha = {r: s.decode() for s, r in rh.of_sha.items()}
             back = lambda toks: [rh.of_sha[t.encode()] for t in toks]
             qs = _repo_queries(rng, rh, nq)
+            if tie is not None:
+                qs += _tie_queries(rng, rh, *tie, full=True)
             if shape == "F14":
                 top = max(range(h.n), key=lambda c: bin(h.A[c]).count("1"))
                 for c in range(h.n):
@@ -1310,6 +1458,7 @@ def run(ctx: core.Ctx):
     _stream_repo_random(ctx)
     t3 = time.time()
     _stream_topo(ctx)
+    _stream_walk_ties(ctx)
     _stream_git(ctx)
     t4 = time.time()
     ctx.extra_cov["stream_wall_s"] = {"small.lcas": round(t1 - t0, 1), "repo.small": round(t2 - t1, 1),
